@@ -396,14 +396,24 @@ class FSM:
             d[c] = list(v)
         return d
 
-    def is_crew_done(self):
+    def _ready_for(self, wait: str) -> bool:
+        '''the awaited condition holds and the pipeline can take the update'''
         # pylint: disable=protected-access
-        while dawgie.pl.farm._busy and self.waiting_on_crew():
+        if wait == 'crew':
+            idle = not dawgie.pl.farm._busy
+        elif wait == 'doing':
+            idle = not dawgie.pl.schedule.view_doing()
+        else:
+            idle = not dawgie.pl.schedule.que
+        return idle and self.is_pipeline_active()
+
+    def is_crew_done(self):
+        while not self._ready_for('crew') and self.waiting_on_crew():
             time.sleep(0.2)
         return
 
     def is_doing_done(self):
-        while dawgie.pl.schedule.view_doing() and self.waiting_on_doing():
+        while not self._ready_for('doing') and self.waiting_on_doing():
             time.sleep(0.2)
         return
 
@@ -411,7 +421,7 @@ class FSM:
         return self.state == 'running' and self.transitioning == Status.active
 
     def is_todo_done(self):
-        while dawgie.pl.schedule.que and self.waiting_on_todo():
+        while not self._ready_for('todo') and self.waiting_on_todo():
             time.sleep(0.2)
         return
 
@@ -558,8 +568,13 @@ class FSM:
             # or the next submission of this priority never starts a poller
             self.crew_thread = None
             if self.waiting_on_crew():
-                self.update_trigger()
-                pass
+                # the poller ran in a thread: what it saw may have changed by now
+                # (a worker got busy, an archive started); only fire if it still
+                # holds, otherwise keep waiting
+                if self._ready_for('crew'):
+                    self.update_trigger()
+                else:
+                    self.wait_for_crew()
             return
 
         log.info("Waiting for crew to be empty.")
@@ -587,8 +602,13 @@ class FSM:
             # or the next submission of this priority never starts a poller
             self.doing_thread = None
             if self.waiting_on_doing():
-                self.update_trigger()
-                pass
+                # the poller ran in a thread: what it saw may have changed by now
+                # (a worker got busy, an archive started); only fire if it still
+                # holds, otherwise keep waiting
+                if self._ready_for('doing'):
+                    self.update_trigger()
+                else:
+                    self.wait_for_doing()
             return
 
         log.info("Waiting for doing to be empty.")
@@ -623,8 +643,13 @@ class FSM:
             # or the next submission of this priority never starts a poller
             self.todo_thread = None
             if self.waiting_on_todo():
-                self.update_trigger()
-                pass
+                # the poller ran in a thread: what it saw may have changed by now
+                # (a worker got busy, an archive started); only fire if it still
+                # holds, otherwise keep waiting
+                if self._ready_for('todo'):
+                    self.update_trigger()
+                else:
+                    self.wait_for_todo()
             return
 
         log.info("Waiting for todo, doing, and crew to be empty.")
